@@ -297,6 +297,8 @@ TIE.update({
 })
 # store/src/lib.rs, the command loop of the store task (tools/skelstore.py -> coq/GenStore.v; refinement to StoreDefs.sstep)
 PROPS['C16'].setdefault('tie', []).append('store_step')
+PROPS['C16']['extra_props'] = PROPS['C16'].get('extra_props', []) + ['StoreGen']   # C16 stated about the regenerated loop itself
+PROPS['C16']['vo'] = PROPS['C16']['vo'] + ['Props/StoreGen.vo']
 for _f, _ps in TIE.items():
     for _p in set(_ps) | {'C15'}:          # C15: the no-panic theorem is about every function of the node model
         PROPS[_p].setdefault('tie', []).append(_f)
